@@ -845,7 +845,7 @@ func main() {
 	// 3. random vectors of 1..32 messages, random subsets (given in random order), both levels
 	nRandom, nAlter, nAll := 150, 24, 1
 	if thorough {
-		nRandom, nAlter, nAll = 3000, 400, 12
+		nRandom, nAlter, nAll = 2000, 250, 8
 	}
 
 	for i := 0; i < nRandom; i++ {
@@ -891,7 +891,7 @@ func main() {
 	// 6. credential level: generated credentials x reveal frames through GenerateBBSSelectiveDisclosure + ParseCredential
 	nCred := 40
 	if thorough {
-		nCred = 600
+		nCred = 400
 	}
 
 	for i := 0; i < nCred; i++ {
